@@ -131,7 +131,7 @@ pub enum HP {
 }
 fn mk_probe(p: P) -> HP {
     match p {
-        P::Key(k) => HP::Key(Held::new(ctl::quietly(|| mk_key(k)))),
+        P::Key(k) => HP::Key(Held::new(Key::probe(k.0, k.1))),
         P::Q(k) => HP::Q(Probe { cls: k.0, id: k.1 }),
     }
 }
